@@ -185,6 +185,8 @@ type Source struct {
 	OnSubscribe func(idx int, liveOthers int64, ctx context.Context)
 	// PanicInSubscribe makes the subscribe function panic with this value after playing.
 	PanicInSubscribe any
+	// PanicInTeardown makes every teardown of this source panic with this value (after its bookkeeping).
+	PanicInTeardown any
 
 	Subscribed atomic.Int64
 	TornDown   atomic.Int64
@@ -279,6 +281,9 @@ func (s *Source) subscribe(ctx context.Context, dest ro.Observer[int]) ro.Teardo
 			rel.Store(true)
 			s.Live.Add(-1)
 			close(stop)
+		}
+		if s.PanicInTeardown != nil {
+			panic(s.PanicInTeardown)
 		}
 	}
 	sc := s.script(idx)
